@@ -1109,6 +1109,31 @@ class Checker:
                        and isinstance(c0.func.value, ast.Name) and c0.func.value.id == p0]
             reads = [n0 for n0 in astq.walk_no_nested(tfn) if isinstance(n0, ast.Attribute) and n0.attr == "classes_"
                      and isinstance(n0.value, ast.Name) and n0.value.id == p0]
+            perm = None
+            for r0 in rets:
+                v0 = r0.value
+                if isinstance(v0, ast.Subscript) and isinstance(v0.slice, ast.Tuple) and len(v0.slice.elts) == 2 \
+                        and isinstance(v0.slice.elts[0], ast.Slice):
+                    perm = v0.slice.elts[1]
+            if calls_m and reads and perm is not None:
+                # the member matrix is returned with permuted columns: only the identity permutation keeps classes_ order
+                sc_t = Scope(self.repo, tmod, tfn)
+                pe = astq.inline_locals(tfn, perm)
+                if isinstance(pe, ast.Call) and sc_t.ext(pe.func) == "numpy.argsort" and len(pe.args) == 1:
+                    key = pe.args[0]
+                    if isinstance(key, ast.Attribute) and key.attr == "classes_" and isinstance(key.value, ast.Name) \
+                            and key.value.id == p0:
+                        ctx.ok("R2", c + ":member-output", "columns taken in the order of the member's own (sorted) classes_: identity",
+                               self.loc(tmod, tfn))
+                    else:
+                        ctx.violation("R2", c + ":member-output", "the member's probability columns are re-ordered by %s: this is not the "
+                                      "order of classes_ (sorted label values), so column j of the summed matrix no longer belongs to "
+                                      "classes_[j]" % astq.canon(pe)[:70], self.loc(tmod, perm),
+                                      witness={"input": "integer labels {2, 10}: as strings '10' < '2', the two columns are swapped"})
+                else:
+                    ctx.undecided("R2", c + ":member-output", "column selection %s of the member matrix not interpretable"
+                                  % astq.canon(pe)[:60], self.loc(tmod, tfn))
+                return
             if calls_m and reads and member_method == "predict_proba":
                 self.realigned.add(name)
                 ctx.ok("R2", c + ":member-output", "each part is the %s of self.%s[i], re-aligned through the member's own "
@@ -1520,6 +1545,114 @@ class Checker:
             else:
                 ctx.undecided("R2", c, "stored column value %s not interpretable" % astq.canon(a)[:60], self.loc(k, a))
 
+    # ------------------------------------------------------------------------------------ conformance of trusted helpers
+    def label_validators(self):
+        """R1 conformance: FitInfo treats check_y / check_X_y as label-preserving.  Decide it: every rebinding of the label
+        argument inside them is a pure container change of the same values (to_numpy / asarray / check_y)."""
+        ctx = self.ctx
+        rel = "sktime/utils/validation/panel.py"
+        mod = self.repo.module(rel)
+        for fname in ("check_y", "check_X_y"):
+            fn = self.repo.func(rel, fname)
+            sc = Scope(self.repo, mod, fn)
+            lab = "y"
+            c = "%s:labels-preserved" % fname
+            bad, und = None, None
+            def preserving(v):
+                """True: same label values in the same order; False: derived from the labels otherwise; None: unrelated."""
+                if isinstance(v, ast.Name):
+                    return True if v.id == lab else None
+                if isinstance(v, ast.Call):
+                    f = v.func
+                    ex = sc.ext(f)
+                    if ex in ("numpy.asarray", "numpy.array", "sktime.utils.validation.panel.check_y") and v.args \
+                            and preserving(v.args[0]) is True:
+                        return True
+                    if isinstance(f, ast.Attribute) and f.attr in ("to_numpy", "copy") and preserving(f.value) is True and not v.args:
+                        return True
+                elif isinstance(v, ast.Attribute) and v.attr == "values" and preserving(v.value) is True:
+                    return True
+                return False if any(isinstance(x, ast.Name) and x.id == lab for x in ast.walk(v)) else None
+
+            for n in astq.walk_no_nested(fn):
+                if isinstance(n, ast.Assign) and any(isinstance(t, ast.Name) and t.id == lab for t in n.targets):
+                    pv = preserving(n.value)
+                    if pv is False:
+                        bad = bad or n
+                    elif pv is None:
+                        und = und or n
+            rets = astq.returns(fn)
+            ret_ok = True
+            for r in rets:
+                if r.value is None:
+                    continue
+                parts = r.value.elts if isinstance(r.value, ast.Tuple) else [r.value]
+                pvs = [preserving(x) for x in parts]
+                if any(x is False for x in pvs):
+                    bad = bad or ast.Assign(targets=[], value=[x for x, q in zip(parts, pvs) if q is False][0], lineno=r.lineno)
+                elif not any(x is True for x in pvs):
+                    ret_ok = False
+            if bad is not None:
+                ctx.violation("R1", c, "%s rebinds the labels to %s: the values (or their pairing with the instances) change inside "
+                              "the validator, so classes_ / the decoded predictions are no longer the labels the user supplied"
+                              % (fname, astq.canon(bad.value)[:60]), self.ctx.loc(mod, bad),
+                              witness={"input": "y = pd.Series(['a', 'b'], dtype='category'): predict returns 0 / 1"})
+            elif und is not None or not ret_ok:
+                ctx.undecided("R1", c, "label flow through %s not interpretable" % fname, self.ctx.loc(mod, fn))
+            else:
+                ctx.ok("R1", c, "labels leave %s with the same values in the same order (to_numpy / check_y only)" % fname,
+                       self.ctx.loc(mod, fn))
+
+    def replace_estimator_order(self, cls):
+        """R2 conformance: the column ensemble's `_estimators` setter zips the new (name, estimator) pairs with the old column
+        specifications *by position*; the set_params step replacement must therefore replace in place, not re-order."""
+        ctx = self.ctx
+        hit = self.method(cls, "_replace_estimator")
+        sp = self.method(cls, "_set_params")
+        if sp is not None:
+            for x in astq.calls(sp[1]):
+                if isinstance(x.func, ast.Attribute) and isinstance(x.func.value, ast.Name) and x.func.value.id == "self" \
+                        and len(x.args) == 3 and isinstance(x.args[2], ast.Call) and isinstance(x.args[2].func, ast.Attribute) \
+                        and x.args[2].func.attr == "pop":
+                    hit = self.method(cls, x.func.attr) or hit
+        c = cls.name + ".set_params:component-order"
+        setter = cls.properties.get("_estimators", {}).get("setter") if cls.properties.get("_estimators") else None
+        if setter is None:
+            for k in self.repo.mro(cls):
+                if isinstance(k, ClassInfo) and k.properties.get("_estimators", {}).get("setter") is not None:
+                    setter = k.properties["_estimators"]["setter"]
+                    break
+        zips = setter is not None and any(isinstance(x, ast.Call) and dotted(x.func) == "zip" for x in ast.walk(setter))
+        if hit is None or not zips:
+            ctx.undecided("R2", c, "_replace_estimator / positional _estimators setter not found", None)
+            return
+        k, fn = hit
+        loc = self.loc(k, fn)
+        sets = [x for x in astq.calls(fn) if isinstance(x.func, ast.Name) and x.func.id == "setattr" and len(x.args) == 3
+                and isinstance(x.args[2], ast.Name)]
+        if len(sets) != 1:
+            ctx.undecided("R2", c, "component list is not stored back by one setattr", loc)
+            return
+        lst = sets[0].args[2].id
+        inits = astq.assigned_values(fn, lst)
+        copy_ok = len(inits) == 1 and isinstance(inits[0], ast.Call) and dotted(inits[0].func) == "list" and len(inits[0].args) == 1 \
+            and isinstance(inits[0].args[0], ast.Call) and dotted(inits[0].args[0].func) == "getattr"
+        reorder = [x for x in astq.calls(fn) if isinstance(x.func, ast.Attribute) and isinstance(x.func.value, ast.Name)
+                   and x.func.value.id == lst and x.func.attr in MUTATORS]
+        filtered = [v for v in inits if isinstance(v, (ast.ListComp, ast.GeneratorExp)) and any(g.ifs for g in v.generators)]
+        stores = [n for n in astq.walk_no_nested(fn) if isinstance(n, ast.Assign) and any(
+            isinstance(t, ast.Subscript) and isinstance(t.value, ast.Name) and t.value.id == lst for t in n.targets)]
+        if reorder or filtered:
+            ctx.violation("R2", c, "_replace_estimator rebuilds the component list (%s) instead of replacing the matching entry in "
+                          "place: the replaced component moves to another position, and the column ensemble's _estimators setter pairs "
+                          "components with column specifications by position -- members are then fitted / applied on another "
+                          "member's columns" % ("filter + append" if filtered else reorder[0].func.attr), loc,
+                          witness={"history": "ColumnEnsembleClassifier([(a, A, [0]), (b, B, [1])]).set_params(a=A2): A2 gets column 1"})
+        elif copy_ok and len(stores) == 1:
+            ctx.ok("R2", c, "the matching entry is replaced at its own position in a copy of the list", loc)
+        else:
+            ctx.undecided("R2", c, "component replacement not interpretable", loc)
+
     # ------------------------------------------------------------------------------------ R2: column ensemble
     def r2_column_ensemble(self, cls):
         ctx, name = self.ctx, cls.name
@@ -1766,14 +1899,16 @@ def run(ctx):
             ck.r2_column_ensemble(cls)
             ck.r2_member_labels(cls)
             ck.r2_column_spec(cls)
+            ck.replace_estimator_order(cls)
         ck.r2_column_count(cls)
         ck.r3(cls)
+    ck.label_validators()
     ck.r3(base, methods=("predict",))
     reg = repo.cls(REGRESSOR[0] + ":" + REGRESSOR[1])
     ck.r2_forest(reg, method="predict", member_method="predict")
     ck.r3(reg, methods=("predict",), score="r2")
     rb = repo.cls("sktime/regression/base.py:BaseRegressor")
     ck.score(rb, rb, repo.func("sktime/regression/base.py", "BaseRegressor.score"), "r2")
-    ctx.floor("R1", 48)
-    ctx.floor("R2", 69)
+    ctx.floor("R1", 50)
+    ctx.floor("R2", 71)
     ctx.floor("R3", 44)
